@@ -146,7 +146,14 @@ def _signals_for(rng, via, kind, n):
     """Signals for every coordinate / feature the entry point reads."""
     names = {"operate": ["a"], "operate_inplace": ["a"], "seq_x": ["x"], "seq_y": ["y"], "seq_z": ["z"],
              "seq_xyz": ["x", "y", "z"], "seq_feature": ["a"], "smooth": ["x", "y", "z"]}[via]
-    return {nm: _signal(rng, kind, n) for nm in names}
+    out = {nm: _signal(rng, kind, n) for nm in names}
+    if kind in ("random", "monotone", "integer") and rng.random() < 0.3:
+        # realistic magnitudes: projected map coordinates of hundreds of thousands / millions of metres whose
+        # variation along the track is a few metres (a street walked north-south, a receiver standing still)
+        off = {"x": 652000.0, "y": 6860000.0, "z": 1250.0, "a": 6860000.0}
+        for nm in out:
+            out[nm] = [None if v is None else off[nm] + v * rng.choice([0.003, 0.03]) for v in out[nm]]
+    return out
 
 
 def cases(chunk):
